@@ -256,6 +256,15 @@ class Runner:
         (self.shim_dir / "sitecustomize.py").write_text(SHIM)
         self.pyc_dir = env.new_dir("c22-pyc")
 
+    #: set by main(): are the minimum observation counts still unmet?
+    need_more = staticmethod(lambda: False)
+    #: no run is started after this moment, whatever is still missing
+    cap = 0.0
+
+    def overtime(self) -> bool:
+        """On a crowded machine go on past the budget until the minimum counts are met."""
+        return time.time() < self.cap and bool(self.need_more())
+
     def child_env(self, spec: Spec, tmpdir: pathlib.Path, workdir: pathlib.Path) -> Dict[str, str]:
         environ = env.child_env(TMPDIR=str(tmpdir), PYTHONHASHSEED=spec.hash_seed)
         # byte-code cache in scratch: the children need not recompile the package each time
@@ -273,7 +282,7 @@ class Runner:
         obs = Observation(spec)
         group = spec.group
         limit = self.deadline if group.weight <= 1 else self.heavy_deadline
-        if time.time() > limit:
+        if time.time() > limit and not self.overtime():
             obs.status = "skipped"
             return obs
         t0 = time.time()
@@ -361,11 +370,11 @@ class Runner:
                     env=self.child_env(spec, tmpdir, workdir),
                     stdout=subprocess.PIPE,
                     stderr=subprocess.PIPE,
-                    timeout=min(group.timeout, max(20.0, self.hard_deadline - time.time())),
+                    timeout=min(group.timeout, max(20.0, (self.cap if self.overtime() else self.hard_deadline) - time.time())),
                 )
             except subprocess.TimeoutExpired:
                 # cut by the watchdog or by the end of the wall budget: never a verdict
-                obs.status = "timeout" if time.time() < self.hard_deadline else "skipped"
+                obs.status = "timeout" if time.time() < max(self.hard_deadline, self.cap if self.overtime() else 0.0) else "skipped"
                 return obs
             obs.rc = proc.returncode
             replacements = sorted(
@@ -706,6 +715,13 @@ def main(argv) -> int:
     chk = harness.Check("C22", "exploration", RULE, argv)
     budget = chk.wall_budget(68, 600)
     runner = Runner(chk.seed, chk.t0 + budget)
+    floors = {
+        "variant_runs_compared": chk.pick(30, 150), "files_compared": chk.pick(100, 1000),
+        "groups_success": chk.pick(8, 20), "runs_with_shuffled_listings": chk.pick(4, 15),
+        "warm_runs_with_cache_entry_present": chk.pick(4, 15), "groups_failing": chk.pick(2, 8),
+    }
+    runner.need_more = lambda: any(chk.counters.get(k, 0) < v for k, v in floors.items())  # type: ignore
+    runner.cap = chk.t0 + 8 * budget
 
     groups = build_groups(chk)
     if chk.replay:
